@@ -185,6 +185,22 @@ func execC20(x *Ctx, sc *wire.Scenario) *wire.Result {
 	// that lands inside the processing of a key, the library's unsynchronised redisplays and cursor
 	// position queries fail in many ways that are one defect: the name keeps the failure class,
 	// the window and the kinds of disturbance, not how many ran nor which task blocked where.
+	// a resize regenerates the completions: with a menu open that is a known way to lose the selection
+	// (and the grid that orders the candidates depends on the width)
+	withComp := false
+	for i := range ref.Waits {
+		if ref.Waits[i].Local == "menu-select" {
+			withComp = true
+		}
+	}
+	for _, t := range sc.Script {
+		if strings.Contains(t.Cmd, "complet") {
+			withComp = true
+		}
+	}
+	if withComp {
+		window = strings.Replace(window, "while-", "with-completions-while-", 1)
+	}
 	fine := fired == 1 && window == "while-waiting-for-input"
 	if !fine {
 		for i := range kinds {
@@ -198,6 +214,14 @@ func execC20(x *Ctx, sc *wire.Scenario) *wire.Result {
 		}
 		return ""
 	}
+	coarseWindow := window[:strings.Index(window, "|")]
+	// name gives the signature: the failure class in full in the supported case, the window alone otherwise
+	name := func(cls string) string {
+		if fine {
+			return cls + "|" + window
+		}
+		return "disturbed-beyond-one-event-while-waiting|" + coarseWindow
+	}
 	// (1) no panic
 	if out.End == "PANIC" {
 		return violation(res, "PANIC", "C20.no-panic", panicSig(out.Panic, out.PanicStack)+":"+window,
@@ -206,18 +230,18 @@ func execC20(x *Ctx, sc *wire.Scenario) *wire.Result {
 	// (2) no deadlock, no task left stuck
 	switch out.End {
 	case "DEADLOCK":
-		return violation(res, "DEADLOCK", "C20.no-deadlock", "deadlock"+dsig(out.Blocked)+"|"+window,
+		return violation(res, "DEADLOCK", "C20.no-deadlock", name("deadlock"+dsig(out.Blocked)),
 			fmt.Sprintf("disturbances %v: no event enabled and Readline neither returned nor is parked in a terminal read: %s", firedList, out.Blocked))
 	case "LIVELOCK", "BUDGET":
-		return violation(res, "LIVELOCK", "C20.no-livelock", "livelock"+dsig(out.EndDetail)+"|"+window,
+		return violation(res, "LIVELOCK", "C20.no-livelock", name("livelock"+dsig(out.EndDetail)),
 			fmt.Sprintf("disturbances %v: no input progress: %s", firedList, out.EndDetail))
 	case "WAITING":
-		return violation(res, "DEADLOCK", "C20.returns-like-undisturbed", "stuck-waiting"+map[bool]string{true: ":" + out.EndDetail, false: ""}[fine]+"|"+window,
+		return violation(res, "DEADLOCK", "C20.returns-like-undisturbed", name("stuck-waiting:"+out.EndDetail),
 			fmt.Sprintf("disturbances %v: the whole script was typed but Readline is still waiting in a %s read (keys were swallowed); undisturbed run returned %+v; buffer %q",
 				firedList, out.EndDetail, ref.Returns[0], out.FinalSnap.Line))
 	}
 	if out.Stuck && out.End == "RETURNED" {
-		return violation(res, "STUCK_TASK", "C20.no-stuck-task", "stuck-task|"+window,
+		return violation(res, "STUCK_TASK", "C20.no-stuck-task", name("stuck-task"),
 			fmt.Sprintf("disturbances %v: Readline returned but a goroutine of the library is left blocked for ever: %s %s", firedList, out.StuckMsg, out.EndDetail))
 	}
 	// (3) same line as the keystrokes alone determine
@@ -225,7 +249,7 @@ func execC20(x *Ctx, sc *wire.Scenario) *wire.Result {
 		return res
 	}
 	if out.Returns[0].Line != ref.Returns[0].Line || out.Returns[0].Err != ref.Returns[0].Err {
-		return violation(res, "DIVERGENCE", "C20.line-as-undisturbed", "line-differs|"+window,
+		return violation(res, "DIVERGENCE", "C20.line-as-undisturbed", name("line-differs"),
 			fmt.Sprintf("disturbances %v: Readline returned (%q,%q); the same keys without disturbance return (%q,%q)",
 				firedList, out.Returns[0].Line, out.Returns[0].Err, ref.Returns[0].Line, ref.Returns[0].Err))
 	}
@@ -250,7 +274,7 @@ func execC20(x *Ctx, sc *wire.Scenario) *wire.Result {
 						if fine {
 							ssig = "screen:" + strings.TrimPrefix(sig, "layout:")
 						}
-						return violation(res, "LAYOUT", "C20.screen-consistent-after-redisplay", ssig+"|"+window,
+						return violation(res, "LAYOUT", "C20.screen-consistent-after-redisplay", name(ssig),
 							fmt.Sprintf("disturbances %v: at the input wait after %d keys the screen is inconsistent (the undisturbed run paints this frame correctly): %s", firedList, lastW.Tokens, msg))
 					}
 					res.Counters["frames_judged"]++
